@@ -27,15 +27,18 @@ type Exchange struct {
 // Origin is a raw TCP origin answering by request id.
 type Origin struct {
 	// TLS is true when the listener speaks TLS: requests that arrive were sent over TLS.
-	TLS    bool
-	L      net.Listener
-	Rec    *core.Recorder
-	mu     sync.Mutex
-	ex     map[int]*Exchange
-	Seen   map[int]int // id -> number of times received
-	Notes  []string
-	wg     sync.WaitGroup
-	closed bool
+	TLS  bool
+	L    net.Listener
+	Rec  *core.Recorder
+	mu   sync.Mutex
+	ex   map[int]*Exchange
+	Seen map[int]int // id -> number of times received
+	// OnRequest, when set, is called with every parsed request before the answer is written
+	// (checks use it to log their own event and to hold the answer back).
+	OnRequest func(m *Msg, id int)
+	Notes     []string
+	wg        sync.WaitGroup
+	closed    bool
 }
 
 // NewOrigin starts an origin on a loopback port.
@@ -148,6 +151,9 @@ func (o *Origin) handle(c net.Conn) {
 			o.note("request %d arrived again (transport retry)", id)
 		} else {
 			o.Rec.Emit("oresp", "i", id, "k", k, "close", (e.Res.Close || e.Res.Framing == "close") && k == "ok", "ok", ok, "tls", o.TLS)
+		}
+		if o.OnRequest != nil {
+			o.OnRequest(m, id)
 		}
 		raw := e.Res.Bytes(id)
 		if e.Res.Fault == "cut" {
